@@ -756,6 +756,43 @@ fn main() {
             out.case(true, "tty", &f);
             fs::remove_dir_all(&cwd).ok();
         }
+        // the same guard in `wac plug`
+        for wat in [false, true] {
+            ctx.n += 1;
+            let cwd = ctx.scratch.join(format!("case{}", ctx.n));
+            fs::create_dir_all(&cwd).unwrap();
+            fs::write(cwd.join("greeter.wasm"), &fixtures[1].1).unwrap();
+            fs::write(cwd.join("name.wasm"), &fixtures[0].1).unwrap();
+            let cmdline = format!("{} plug --plug name.wasm{} greeter.wasm", ctx.wac.display(), if wat { " -t" } else { "" });
+            let o = Command::new("/usr/bin/script")
+                .args(["-q", "-e", "-c", &cmdline, "/dev/null"])
+                .current_dir(&cwd)
+                .env("HOME", &cwd)
+                .env("NO_COLOR", "1")
+                .env("TOKIO_WORKER_THREADS", "2")
+                .env_remove("RUST_LOG")
+                .env_remove("RUST_BACKTRACE")
+                .stdin(std::process::Stdio::null())
+                .output()
+                .expect("spawn script");
+            let merged: Vec<u8> = o.stdout.iter().copied().filter(|b| *b != b'\r').collect();
+            let lib = lib_plug(&cwd, "greeter.wasm", &[("plug:name".to_string(), "name.wasm".to_string())]);
+            let text = lib.as_ref().ok().and_then(|b| wasmprinter::print_bytes(b).ok()).map(|t| format!("{t}\n").into_bytes());
+            let f: Vec<String> = vec![
+                "tty-plug".into(),
+                b(wat),
+                "\\e;".into(),
+                lib_field(&mut ctx.intern, &lib),
+                o.status.code().map(|c| c.to_string()).unwrap_or_else(|| "signal".into()),
+                b(text.as_deref() == Some(&merged[..])),
+                b(merged.is_empty()),
+                b(String::from_utf8_lossy(&merged).contains("error")),
+                "-".into(),
+            ];
+            out.count("tty:plug");
+            out.case(true, "tty", &f);
+            fs::remove_dir_all(&cwd).ok();
+        }
     }
 
     // usage errors are clap's: observed only
